@@ -519,6 +519,26 @@ func isPadHelper(f *ssa.Function) bool {
 	case 2:
 		// early-return form: `if len(b) < 32 { return append(zeros[:32-len(b)], b...) }; return b`
 		res = padAlternatives(rets, nil, f.Params[0])
+		if !res {
+			// or a fresh 32-byte buffer with the value copied into its tail, the value itself being returned when it
+			// already has 32 bytes or more
+			be := newBigEnv(f, map[ssa.Value]string{f.Params[0]: "$0"})
+			forms := map[string]bool{}
+			for _, b := range f.Blocks {
+				if ret, ok := b.Instrs[len(b.Instrs)-1].(*ssa.Return); ok && len(ret.Results) == 1 {
+					forms[be.bytesOf(ret.Results[0], ret).String()] = true
+				}
+			}
+			guard := false
+			for _, ifi := range ifsOf(f) {
+				if bo, ok := ifi.Cond.(*ssa.BinOp); ok {
+					if k, isK := constInt(bo.Y); isK && k == 32 && isLenOf(bo.X, func(x ssa.Value) bool { return x == ssa.Value(f.Params[0]) }) {
+						guard = true
+					}
+				}
+			}
+			res = guard && len(forms) == 2 && forms["$0"] && forms["padleft(0x20,$0)"]
+		}
 	}
 	padHelperCache[f] = res
 	return res
